@@ -5,11 +5,13 @@
    linear normalisation, lowering to propagator descriptions, validation, known-class predicates).
    Statements only; proofs in Proofs/LowerProofs.v and Proofs/LowerSolve.v.
 
-   Known-defect classes of the lowering (decidable predicates of Model/Lower.v):
+   Known-defect class of the lowering (decidable predicate of Model/Lower.v):
      kf_or_not     Or lowered like And (outside `x==a || x==b`), Not lowered as the identity   (D3)
-     kf_nested_ne  a `!=` reaching the Binary arm becomes the no-op NotEquals propagator: the
-                   DESCRIPTION still means x <> y (lower_denotes holds), the propagator does not
-                   enforce it (C05 class neq_noop; nested_ne_refuted runs the engine)            (D3)
+   Repaired (D3, 106df3d): a `!=` reaching the Binary arm (nested under and/or/not, or between
+   non-linear sides) is lowered to the NotEquals propagator, which used to be a no-op and now
+   prunes (Props/Neq.v, good: C05_Neq; pneq_good): the former class kf_nested_ne is gone,
+   `impl_cons` is at once the meaning of the descriptions and what the engine enforces
+   (nested_ne_repaired; the pre-repair behaviour: nested_ne_prefix_refuted).
    plus, after lowering: the validator rejects every modulo whose divisor (variable or compound)
    has bounds that contain 0 (mod_rejected_refuted; a constant divisor is accepted:
    mod_const_accepted).
@@ -163,12 +165,26 @@ Theorem aux_range_too_large : exists s ps,
 Proof. exact LowerProofs.aux_range_too_large. Qed.
 Print Assumptions aux_range_too_large.
 
-Theorem nested_ne_refuted : exists decls c s ps sols best t,
-  kf_or_not (fold_cons c) = false /\ kf_nested_ne c = true /\
-  lower (build (decls ++ [SNew c])) = LOk s ps /\
-  enumerate fifo (map den_basic ps) s = SOk sols best /\ In t sols /\ eval_cons c (asg_of t) = Some false.
-Proof. exact LowerSolve.nested_ne_refuted. Qed.
-Print Assumptions nested_ne_refuted.
+(* ---- repaired (D3): a nested `!=` is enforced ---- *)
+Theorem pneq_good : forall x y, view_ok x -> view_ok y -> good (den_basic (PNeq x y)).
+Proof. exact LowerSolve.pneq_good. Qed.
+Print Assumptions pneq_good.
+
+Theorem nested_ne_repaired : exists s ps sols best,
+  let c := CAnd (CBin x0 ONe x1) (CBin x0 OLe (EVal 1)) in
+  lower (build ([SInt 0 1; SInt 0 1] ++ [SNew c])) = LOk s ps /\
+  enumerate fifo (map den_basic ps) s = SOk sols best /\ length sols = 2%nat /\
+  forall t, In t sols -> eval_cons c (asg_of t) = Some true.
+Proof. exact LowerSolve.nested_ne_repaired. Qed.
+Print Assumptions nested_ne_repaired.
+
+(* the pre-repair NotEquals record (a no-op) on the same lowered model yields x = y = 0 *)
+Theorem nested_ne_prefix_refuted : exists s ps sols best t,
+  let c := CAnd (CBin x0 ONe x1) (CBin x0 OLe (EVal 1)) in
+  lower (build ([SInt 0 1; SInt 0 1] ++ [SNew c])) = LOk s ps /\
+  enumerate fifo (map den_basic_prefix ps) s = SOk sols best /\ In t sols /\ eval_cons c (asg_of t) = Some false.
+Proof. exact LowerSolve.nested_ne_prefix_refuted. Qed.
+Print Assumptions nested_ne_prefix_refuted.
 
 Theorem mod_rejected_refuted : exists decls c a s ps,
   lower (build (decls ++ [SNew c])) = LOk s ps /\ validate s ps = Some EInvalidConstraint /\
@@ -189,11 +205,11 @@ Proof. exact LowerProofs.eq_on_empty_invalid. Qed.
 Print Assumptions eq_on_empty_invalid.
 
 (* ---- non-vacuity: a tree with repeated variables, constants on both sides, a product and a
-   conjunction lies outside every class; its lowering is the dump the tie compares ---- *)
+   conjunction lies outside the class; its lowering is the dump the tie compares ---- *)
 Example c10_outside_classes :
   let c := CAnd (CBin (ESub (EMul x0 x1) (EMul (EVal 2) x0)) OGe (EAdd x1 (EVal (-3))))
                 (CBin (EAdd x0 x0) OLt (EAdd (EMul x1 (EVal 3)) (EVal 1))) in
-  kf_or_not (fold_cons c) = false /\ kf_nested_ne c = false.
+  kf_or_not (fold_cons c) = false.
 Proof. exact LowerProofs.outside_classes. Qed.
 
 Example c10_lowering_example :
